@@ -436,6 +436,26 @@ func propC06(c *Ctx) {
 			}
 		}
 	}
+	// indexing follows list semantics, for every string and array of the pool and every small index (not sampled)
+	for _, a := range all {
+		if a.Type() != variants.String && a.Type() != variants.Array {
+			continue
+		}
+		for i := -2; i <= 40; i++ {
+			got := runOpCase(c, "u", opIndex("getElement"), a, vInt(i))
+			want := "err INDEX_OUT_OF_RANGE"
+			if a.Type() == variants.String {
+				if rs := []rune(a.AsString()); i >= 0 && i < len(rs) {
+					want = "ok " + encVariant(vStr(string(rs[i])))
+				}
+			} else if i >= 0 && i < a.Length() {
+				want = "ok " + encVariant(a.GetByIndex(i))
+			}
+			if got != want {
+				c.fail(Failure{Kind: "oracle", Op: fmt.Sprintf("op u getElement %s %s", encArg(a), encArg(vInt(i))), Impl: got, Note: "indexing must follow list semantics: expected " + want})
+			}
+		}
+	}
 	// the host arithmetic of the other types, for operands of one type: integers (two's complement wrap-around, truncated
 	// division), strings (concatenation, byte-wise order), booleans, time spans
 	b2s := func(b bool) string {
